@@ -7,7 +7,8 @@
      =>  dist(-(grad f(x_hat)+grad g(x_hat) y_hat), N_C(x_hat)) <= eps,  dist(g(x_hat), D) <= ||e||inf,  complementarity.           *)
 From Coq Require Import Reals List ZArith Bool Lra.
 From Alpaqa Require Import Num NumR Vec Prox ProxProofs ProxVec SolverStatus SolverKernels SolverKernelsProofs KktProofs
-     StopChain StopChainProofs Alm AlmProofs.
+     StopChain StopChainProofs Alm AlmProofs
+     AugLag AugLagProofs Panoc PanocProofs PanocLen AlmCompose AlmComposeProofs AlmPanoc AlmPanocProofs.
 Import ListNotations.
 Local Open Scope R_scope.
 
@@ -45,7 +46,7 @@ Print Assumptions C01_positive_multiplier_near_upper.
 (* ALM level (model of alm.tpp, all inner-outcome scripts): Converged <=> the last inner solve converged with eps <= tolerance and
    ||e||inf <= dual tolerance; the reported eps and delta are those of that solve *)
 Theorem C01_alm_converged_iff : forall (P : alm_params) pb f0 g0 nanv Σ0 y0 script,
-  p_max_iter P <> 0%nat -> pb_m pb <> 0%nat ->
+  Alm.p_max_iter P <> 0%nat -> pb_m pb <> 0%nat ->
   f_exhausted (snd (alm_run P pb f0 g0 nanv Σ0 y0 script)) = false ->
   exists (pre : list iter_rec) (r : iter_rec), fst (alm_run P pb f0 g0 nanv Σ0 y0 script) = pre ++ [r] /\
     let f := snd (alm_run P pb f0 g0 nanv Σ0 y0 script) in
@@ -74,3 +75,144 @@ Proof.
   unfold box_ne, in_box, lb_ok, ub_ok, proj1; cbn [clamp_lo clamp_hi]. numR.
   repeat split; try lra; [intros u [? ?]; lra|rbool; lra].
 Qed.
+
+(* ================================================================================================================================
+   END-TO-END.  The links above are composed for the executable model of ALMSolver<PANOCSolver<Direction>>:
+     AlmPanoc.alm_panoc = the ALM outer loop (Alm.v, composed by AlmCompose.v) calling the whole-loop PANOC model (Panoc.v) on a problem
+     given by its four basic functions f, ∇f, g, ∇g·y and the box D (AugLag.v: the inner solver sees ψ, ŷ, ∇ψ, ∇L through the vtable, i.e. the
+     problem's own member where `prov` says it supplies one, otherwise the default composition of type-erased-problem.tpp).
+   The whole-run correspondence Corr_ALMPANOC.chkalmpanoc (lib/vf/props/ALMPANOC.py) ties alm_panoc at binary64 to the real solver stack. *)
+
+(* (1) the composed run IS Alm.alm_run on the script of inner outcomes it produces (so every theorem of C07 applies to it), the script
+   is never exhausted, and every record of the trace was produced by one call of the inner solver on exactly the data the record
+   shows (outer index, y, Σ, tolerance, err_z buffer), the calls being chained through the primal buffer x and the world w.
+   For EVERY inner solver. *)
+Theorem C01_composed_run_is_alm_run : forall (W Lg : Type)
+    (inner : W -> nat -> list R -> list R -> list R -> R -> list R -> option (inner_res (T:=R) * list R * Lg * W))
+    (P : alm_params) (pb : alm_problem) (fuel : nat) (f0 : R) (g0 : list R) (nanv : R) (Σ0 : option (list R))
+    (y0 x0 : list R) (w0 : W) (co : cout W Lg),
+  c_run W Lg inner P pb fuel f0 g0 nanv Σ0 y0 x0 w0 = Some co ->
+  exists script : list (inner_res (T:=R)),
+    co_trace co = fst (alm_run P pb f0 g0 nanv Σ0 y0 script) /\
+    co_final co = snd (alm_run P pb f0 g0 nanv Σ0 y0 script) /\
+    f_exhausted (co_final co) = false /\
+    called W Lg inner x0 w0 (co_trace co) (co_x co) (co_w co) /\
+    length (co_logs co) = length script /\ (Alm.p_max_iter P <> 0%nat -> script <> []).
+Proof. exact c_run_spec. Qed.
+Print Assumptions C01_composed_run_is_alm_run.
+
+(* what `called` says about the last record: it was returned by an inner solve whose primal output is the x of the composed run *)
+Theorem C01_last_record_is_last_inner_solve : forall (W Lg : Type)
+    (inner : W -> nat -> list R -> list R -> list R -> R -> list R -> option (inner_res (T:=R) * list R * Lg * W))
+    (Q : list R -> Prop),
+  (forall w i x y Σ tol e r x' lg w', Q x -> inner w i x y Σ tol e = Some (r, x', lg, w') -> Q x') ->
+  forall pre rc x0 w0 xf wf, Q x0 -> called W Lg inner x0 w0 (pre ++ [rc]) xf wf ->
+    exists x w lg, Q x /\ inner w (it_i rc) x (it_y rc) (it_Sigma rc) (it_tol rc) (it_err_in rc) = Some (it_res rc, xf, lg, wf).
+Proof. exact called_last. Qed.
+Print Assumptions C01_last_record_is_last_inner_solve.
+
+(* (2) PANOC inner contract with dimensions: for arbitrary stop / clock / direction oracles, length-preserving gradient oracles and a
+   direction provider returning n-vectors, a run that ends Converged under ApproxKKT returns x̂ = Π_C(x − γ∇ψ(x)) with x, ∇ψ(x), ∇ψ(x̂) of
+   length n, ε the residual, and the ∇ψ(x̂) of the criterion is eval_grad_L(x̂, ŷ(x̂)) — or, with eager gradient evaluation, the gradient
+   output of eval_ψ_grad_ψ(x̂) / eval_grad_ψ(x̂) (never a composition with whatever a supplied eval_ψ_grad_ψ left in work_m). *)
+Theorem C01_panoc_inner_contract_with_dimensions :
+  forall (psi_grad_full : list R -> R * list R * list R) (psi_yhat : list R -> R * list R) (grad_L : list R -> list R -> list R)
+    (grad_psi : list R -> list R) (lb ub : list (option R)) (l1 : list R) (dir_apply : nat -> iterate (T:=R) -> option (list R))
+    (has_initial : bool) (stop_req time_up : counters -> bool) (P : params (T:=R)) (x_in y_in Σ errz_in : list R) (ls_fuel n : nat),
+  l1 = [] -> length lb = n -> length ub = n -> length x_in = n ->
+  (forall x, length x = n -> length (snd (psi_grad psi_grad_full x)) = n) ->
+  (forall x yh, length x = n -> length (grad_L x yh) = n) ->
+  (forall x, length x = n -> length (grad_psi x) = n) ->
+  (forall j i q, dir_apply j i = Some q -> length q = n) ->
+  forall (fuel : nat) (o : outputs (T:=R)),
+  panoc psi_grad_full psi_yhat grad_L grad_psi lb ub l1 dir_apply has_initial stop_req time_up P x_in y_in Σ errz_in ls_fuel fuel = Done o ->
+  out_status o = StConverged -> p_crit P = ApproxKKT ->
+  exists (x grad gradh : list R) (γ : R),
+    let step := proj_grad_step lb ub γ x grad in
+    length x = n /\ length grad = n /\ length gradh = n /\
+    out_x o = fst (fst step) /\ length (out_x o) = n /\
+    out_y o = snd (psi_yhat (out_x o)) /\
+    (if p_eager P then gradh = snd (psi_grad psi_grad_full (out_x o)) \/ gradh = grad_psi (out_x o) else gradh = grad_L (out_x o) (out_y o)) /\
+    out_errz o = match errz_in with [] => [] | _ => vdiv (vsub (out_y o) y_in) Σ end /\
+    out_eps o = vnorminf (kkt_residual γ (snd (fst step)) grad gradh) /\
+    out_eps o <= eff_tol (o_tol P) /\
+    (0 < p_Lgamma P -> 0 < L_init psi_grad_full grad_psi P x_in -> 0 < γ).
+Proof. exact panoc_inner_contract_len. Qed.
+Print Assumptions C01_panoc_inner_contract_with_dimensions.
+
+(* (3) THE end-to-end theorem.  Hypotheses, and why each is there:
+     provider_ok / grad_g_prod_empty_ok   members the problem supplies itself return the closed forms; ∇g(x)·[] adds nothing (C04's obligations)
+     l1 = [], p_crit = ApproxKKT          the property's text (l1 term off, default stopping rule)
+     0 < Lγ_factor; L_0 > 0 or 0 < L_min <= L_max   the step size γ = Lγ/L of every inner solve is positive (L_init > 0 is PROVED from this)
+     lengths, nonempty rows of C and D    dimensions n, m; user functions and the direction provider return vectors of those dimensions
+     max_iter <> 0                        otherwise ALM returns MaxIter at once
+     m <> 0 -> sigma_inv …                positive initial penalties (AlmProofs.initial_sigma_ok derives it from parameter ranges)
+     m = 0 -> 0 < tolerance               with m = 0 ALM passes params.tolerance straight to the inner solver, which replaces a
+                                          non-positive tolerance by 1e-8 and reports Converged for ε <= 1e-8 > tolerance: ALM forwards that status
+   NOT needed: any hypothesis on eager_gradient_eval / a supplied eval_ψ_grad_ψ, on the direction's values, on stop / clock oracles,
+   on fuel (the statement is about completed runs), on the other ALM / PANOC parameters. *)
+Theorem C01_alm_panoc_converged_is_kkt :
+  forall (Pb : problem (T:=R)) (prov : fn -> bool) (wm_supplied : list R -> list R) (Clb Cub : list (option R)) (l1 : list R)
+    (split : nat) (dir : nat -> iterate (T:=R) -> option (list R)) (has_initial : bool) (stop_req time_up : counters -> bool)
+    (outer_oot : nat -> bool) (PP : params (T:=R)) (AP : alm_params (T:=R)) (ls_fuel inner_fuel n m : nat),
+  provider_ok Pb prov ->
+  grad_g_prod_empty_ok Pb ->
+  l1 = [] ->
+  p_crit PP = ApproxKKT ->
+  0 < p_Lgamma PP ->
+  0 < p_L0 PP \/ 0 < p_Lmin PP <= p_Lmax PP ->
+  length Clb = n -> length Cub = n -> Forall2 box_ne Clb Cub ->
+  (forall x, length x = n -> length (pgrad_f Pb x) = n) ->
+  (forall x y, length x = n -> length (pgrad_g_prod Pb x y) = n) ->
+  (forall x, length x = n -> length (pg Pb x) = m) ->
+  length (plb Pb) = m -> length (pub Pb) = m -> Forall2 box_ne (plb Pb) (pub Pb) ->
+  (forall j i q, dir j i = Some q -> length q = n) ->
+  forall (outer_fuel : nat) (nanv : R) (Σ0 : option (list R)) (y0 x0 : list R) (co : cout counters (result (T:=R))),
+  length x0 = n -> length y0 = m ->
+  Alm.p_max_iter AP <> 0%nat ->
+  (m <> 0%nat -> sigma_inv AP m (initial_sigma AP m (pf Pb x0) (pg Pb x0) Σ0)) ->
+  (m = 0%nat -> 0 < p_tol AP) ->
+  alm_panoc Pb prov wm_supplied Clb Cub l1 split dir has_initial stop_req time_up outer_oot PP AP ls_fuel inner_fuel outer_fuel nanv Σ0 y0 x0
+    = Some co ->
+  f_status (co_final co) = Converged ->
+  let x := co_x co in
+  let y := f_y (co_final co) in
+  length x = n /\ length y = m /\
+  (* x in C *)
+  (forall i, (i < n)%nat -> in_box (nth i Clb None) (nth i Cub None) (nth i x 0)) /\
+  (* stationarity: -(∇f(x) + ∇g(x) y) within `tolerance` (max norm) of the normal cone of C at x *)
+  (forall i, (i < n)%nat -> exists r,
+      (forall u, in_box (nth i Clb None) (nth i Cub None) u -> r * (u - nth i x 0) <= 0) /\
+      Rabs (- nth i (vadd (pgrad_f Pb x) (pgrad_g_prod Pb x y)) 0 - r) <= p_tol AP) /\
+  (* feasibility: dist∞(g(x), D) <= dual_tolerance *)
+  (forall i, (i < m)%nat -> exists z,
+      in_box (nth i (plb Pb) None) (nth i (pub Pb) None) z /\ Rabs (nth i (pg Pb x) 0 - z) <= p_dual_tol AP) /\
+  (* complementarity: y_i > 0 (< 0) only where g_i(x) is within dual_tolerance of its upper (lower) bound *)
+  (forall i, (i < m)%nat ->
+      (0 < nth i y 0 -> exists u, nth i (pub Pb) None = Some u /\ Rabs (nth i (pg Pb x) 0 - u) <= p_dual_tol AP) /\
+      (nth i y 0 < 0 -> exists l, nth i (plb Pb) None = Some l /\ Rabs (nth i (pg Pb x) 0 - l) <= p_dual_tol AP)).
+Proof. exact alm_panoc_converged_is_kkt. Qed.
+Print Assumptions C01_alm_panoc_converged_is_kkt.
+
+(* the penalty hypothesis from parameter ranges *)
+Theorem C01_initial_penalties_ok : forall (P : alm_params (T:=R)) m f0 g0 Σ0,
+  0 < p_min_pen P <= p_max_pen P -> p_init_pen P <= p_max_pen P ->
+  (forall s, Σ0 = Some s -> sigma_accepted s = true ->
+     length s = m /\ Forall (fun x => 0 < x <= p_max_pen P) s /\ (p_single P = true -> uniform s)) ->
+  sigma_inv P m (initial_sigma P m f0 g0 Σ0).
+Proof. exact sigma_inv_of_params. Qed.
+Print Assumptions C01_initial_penalties_ok.
+
+(* non-vacuity: a concrete problem (n = 1, m = 1: minimise x s.t. x in [0,1], g(x) = x <= 0, from x0 = 0, y0 = 0) and parameters that
+   satisfy every hypothesis of the theorem and on which the composed model returns Converged (after one outer iteration, x = 0, y = 0;
+   the stationarity witness is the multiplier r = -1 of the active bound x >= 0) *)
+Example C01_alm_panoc_nonvacuous :
+  (provider_ok nvPb nvprov /\ grad_g_prod_empty_ok nvPb /\ p_crit nvPP = ApproxKKT /\ 0 < p_Lgamma nvPP /\
+   (0 < p_L0 nvPP \/ 0 < p_Lmin nvPP <= p_Lmax nvPP) /\ Forall2 box_ne [Some 0] [Some 1] /\ Forall2 box_ne (plb nvPb) (pub nvPb) /\
+   (forall x, length x = 1%nat -> length (pgrad_f nvPb x) = 1%nat) /\ (forall x y, length x = 1%nat -> length (pgrad_g_prod nvPb x y) = 1%nat) /\
+   (forall x, length x = 1%nat -> length (pg nvPb x) = 1%nat) /\ (forall j i q, nv_dir j i = Some q -> length q = 1%nat) /\
+   Alm.p_max_iter nvAP <> 0%nat /\ sigma_inv nvAP 1 (initial_sigma nvAP 1 (pf nvPb [0]) (pg nvPb [0]) None)) /\
+  exists co,
+    alm_panoc nvPb nvprov (fun _ => []) [Some 0] [Some 1] [] 0 nv_dir false nv_never nv_never (fun _ => false) nvPP nvAP 5 5 3 0 None [0] [0] = Some co /\
+    f_status (co_final co) = Converged /\ co_x co = [0] /\ f_y (co_final co) = [0].
+Proof. exact (conj nv_hypotheses nv_converged). Qed.
